@@ -721,23 +721,21 @@ package writer
 //   end) of the writer's buffer; the bytes appended are exactly those of endMessage: the field table
 //   in stack order, the data size, the table size, the type byte; earlier bytes stay.
 //@   let eB = w.writerState.buf
-//@   let eS = SE(w, 0).start
-//@   let eT0 = SE(w, 0).tableStart
+//@   let eS = SE(w, NS(w) - 1).start
+//@   let eT0 = SE(w, NS(w) - 1).tableStart
 //@   let eN = NF(w) - eT0
 //@   let eL0 = BL(w)
 //@   let eDS = eL0 - eS
 //@   let eTab = w.writerState.fields.stack[eT0:NF(w)]
-//@   let eBig = exists k :: 0 <= k && k < len(eTab) && (eTab[k].Tag > 255 || eTab[k].Offset > 65535)
-//@   let eTS = eN * ite(eBig, 6, 3)
-//@   let eRoot = w.err == nil && NS(w) == 1 && SE(w, 0).type_ == 4
-//@   ensures[C01] eRoot && err == nil ==> obj(result) == bobj(eB) && lo(result) == eS && len(result) == eDS + eTS + uvarintLen(eDS) + uvarintLen(eTS) + 1
-//@   ensures[C01] eRoot && err == nil && !eBig ==> (forall k :: 0 <= k && k < eN ==> smallTag(bytesOf(bobj(eB)), eL0, k) == old(eTab[k].Tag) && smallOff(bytesOf(bobj(eB)), eL0, k) == old(eTab[k].Offset))
-//@   ensures[C01] eRoot && err == nil && eBig ==> (forall k :: 0 <= k && k < eN ==> bigTag(bytesOf(bobj(eB)), eL0, k) == old(eTab[k].Tag) && bigOff(bytesOf(bobj(eB)), eL0, k) == old(eTab[k].Offset))
-//@   ensures[C01] eRoot && err == nil ==> isUvarint(bytesOf(bobj(eB)), eL0 + eTS, uvarintLen(eDS), eDS)
-//@   ensures[C01] eRoot && err == nil ==> isUvarint(bytesOf(bobj(eB)), eL0 + eTS + uvarintLen(eDS), uvarintLen(eTS), eTS)
-//@   ensures[C01] eRoot && err == nil ==> bytesOf(bobj(eB))[eL0 + eTS + uvarintLen(eDS) + uvarintLen(eTS)] == ite(eBig, 81, 80)
+//@   let eRoot = w.err == nil && NS(w) == 1 && SE(w, NS(w) - 1).type_ == 4
+//@   ensures[C01] eRoot && err == nil ==> obj(result) == bobj(eB) && lo(result) == eS && len(result) == eDS + (eN * ite(result[len(result) - 1] == 81, 6, 3)) + uvarintLen(eDS) + uvarintLen((eN * ite(result[len(result) - 1] == 81, 6, 3))) + 1 && (result[len(result) - 1] == 81 || result[len(result) - 1] == 80)
+//@   ensures[C01] eRoot && err == nil && !(result[len(result) - 1] == 81) ==> (forall k :: 0 <= k && k < eN ==> smallTag(bytesOf(bobj(eB)), eL0, k) == old(eTab[k].Tag) && smallOff(bytesOf(bobj(eB)), eL0, k) == old(eTab[k].Offset))
+//@   ensures[C01] eRoot && err == nil && result[len(result) - 1] == 81 ==> (forall k :: 0 <= k && k < eN ==> bigTag(bytesOf(bobj(eB)), eL0, k) == old(eTab[k].Tag) && bigOff(bytesOf(bobj(eB)), eL0, k) == old(eTab[k].Offset))
+//@   ensures[C01] eRoot && err == nil ==> isUvarint(bytesOf(bobj(eB)), eL0 + (eN * ite(result[len(result) - 1] == 81, 6, 3)), uvarintLen(eDS), eDS)
+//@   ensures[C01] eRoot && err == nil ==> isUvarint(bytesOf(bobj(eB)), eL0 + (eN * ite(result[len(result) - 1] == 81, 6, 3)) + uvarintLen(eDS), uvarintLen((eN * ite(result[len(result) - 1] == 81, 6, 3))), (eN * ite(result[len(result) - 1] == 81, 6, 3)))
 //@   ensures[C01] eRoot && err == nil ==> (forall i :: 0 <= i && i < eL0 ==> bytesOf(bobj(eB))[i] == old(bytesOf(bobj(eB)))[i])
-//@   ensures[C01] eRoot && eDS <= 2147483647 && eTS <= 2147483647 ==> err == nil
+//   progress: ending the root message fails only when the data or the table is too large
+//@   ensures[C01] eRoot && eDS <= 2147483647 && eN * 6 <= 2147483647 ==> err == nil
 
 // ---- construction
 
@@ -1844,24 +1842,21 @@ package writer
 //@   modifies @BUF
 //@   modifies writer.MessageWriter.*
 //@   let bB = m.w.writerState.buf
-//@   let bS = SE(m.w, 0).start
-//@   let bT0 = SE(m.w, 0).tableStart
+//@   let bS = SE(m.w, NS(m.w) - 1).start
+//@   let bT0 = SE(m.w, NS(m.w) - 1).tableStart
 //@   let bN = NF(m.w) - bT0
 //@   let bL0 = BL(m.w)
 //@   let bDS = bL0 - bS
 //@   let bTab = m.w.writerState.fields.stack[bT0:NF(m.w)]
-//@   let bBig = exists k :: 0 <= k && k < len(bTab) && (bTab[k].Tag > 255 || bTab[k].Offset > 65535)
-//@   let bTS = bN * ite(bBig, 6, 3)
-//@   let bRoot = m.w != nil && m.w.err == nil && NS(m.w) == 1 && SE(m.w, 0).type_ == 4
-//@   ensures[C01] bRoot && result1 == nil ==> obj(result0) == bobj(bB) && lo(result0) == bS && len(result0) == bDS + bTS + uvarintLen(bDS) + uvarintLen(bTS) + 1
-//@   ensures[C01] bRoot && result1 == nil && !bBig ==> (forall k :: 0 <= k && k < bN ==> smallTag(bytesOf(bobj(bB)), bL0, k) == old(bTab[k].Tag) && smallOff(bytesOf(bobj(bB)), bL0, k) == old(bTab[k].Offset))
-//@   ensures[C01] bRoot && result1 == nil && bBig ==> (forall k :: 0 <= k && k < bN ==> bigTag(bytesOf(bobj(bB)), bL0, k) == old(bTab[k].Tag) && bigOff(bytesOf(bobj(bB)), bL0, k) == old(bTab[k].Offset))
-//@   ensures[C01] bRoot && result1 == nil ==> isUvarint(bytesOf(bobj(bB)), bL0 + bTS, uvarintLen(bDS), bDS)
-//@   ensures[C01] bRoot && result1 == nil ==> isUvarint(bytesOf(bobj(bB)), bL0 + bTS + uvarintLen(bDS), uvarintLen(bTS), bTS)
-//@   ensures[C01] bRoot && result1 == nil ==> bytesOf(bobj(bB))[bL0 + bTS + uvarintLen(bDS) + uvarintLen(bTS)] == ite(bBig, 81, 80)
+//@   let bRoot = m.w != nil && m.w.err == nil && NS(m.w) == 1 && SE(m.w, NS(m.w) - 1).type_ == 4
+//@   ensures[C01] bRoot && result1 == nil ==> obj(result0) == bobj(bB) && lo(result0) == bS && len(result0) == bDS + (bN * ite(result0[len(result0) - 1] == 81, 6, 3)) + uvarintLen(bDS) + uvarintLen((bN * ite(result0[len(result0) - 1] == 81, 6, 3))) + 1 && (result0[len(result0) - 1] == 81 || result0[len(result0) - 1] == 80)
+//@   ensures[C01] bRoot && result1 == nil && !(result0[len(result0) - 1] == 81) ==> (forall k :: 0 <= k && k < bN ==> smallTag(bytesOf(bobj(bB)), bL0, k) == old(bTab[k].Tag) && smallOff(bytesOf(bobj(bB)), bL0, k) == old(bTab[k].Offset))
+//@   ensures[C01] bRoot && result1 == nil && result0[len(result0) - 1] == 81 ==> (forall k :: 0 <= k && k < bN ==> bigTag(bytesOf(bobj(bB)), bL0, k) == old(bTab[k].Tag) && bigOff(bytesOf(bobj(bB)), bL0, k) == old(bTab[k].Offset))
+//@   ensures[C01] bRoot && result1 == nil ==> isUvarint(bytesOf(bobj(bB)), bL0 + (bN * ite(result0[len(result0) - 1] == 81, 6, 3)), uvarintLen(bDS), bDS)
+//@   ensures[C01] bRoot && result1 == nil ==> isUvarint(bytesOf(bobj(bB)), bL0 + (bN * ite(result0[len(result0) - 1] == 81, 6, 3)) + uvarintLen(bDS), uvarintLen((bN * ite(result0[len(result0) - 1] == 81, 6, 3))), (bN * ite(result0[len(result0) - 1] == 81, 6, 3)))
 //@   ensures[C01] bRoot && result1 == nil ==> (forall i :: 0 <= i && i < bL0 ==> bytesOf(bobj(bB))[i] == old(bytesOf(bobj(bB)))[i])
 //   progress: ending the root message fails only when the data or the table is too large
-//@   ensures[C01] bRoot && bDS <= 2147483647 && bTS <= 2147483647 ==> result1 == nil
+//@   ensures[C01] bRoot && bDS <= 2147483647 && bN * 6 <= 2147483647 ==> result1 == nil
 
 //@ func (*MessageWriter).End
 //@   safety[C12]
